@@ -107,3 +107,45 @@ package generator
 //@ modifies nothing
 //@ ensures result != nil && vs_fresh(result) && result.initialized && vs_reservedSetOK(result) && vs_noneEndsInVar(result.ReservedWords)
 //@ ensures vs_all(func(w string) bool { return vs_isGoKeyword(w) ==> vs_inWords(result.ReservedWords, len(result.ReservedWords), w) })
+
+// ---- C11: regeneration never destroys user code ----
+
+//@ func fileExists
+//@ props C11
+//@ trusted
+//@ pure
+
+//@ func (*GenOpts).location
+//@ props C11
+//@ trusted
+//@ modifies nothing
+
+//@ func (*GenOpts).render
+//@ props C11
+//@ trusted
+//@ modifies nothing
+
+//@ func (*LanguageOpts).FormatContent
+//@ props C11
+//@ trusted
+//@ modifies nothing
+
+//@ func (*GenOpts).write
+//@ props C11
+//@ requires g != nil && t != nil && g.LanguageOpts != nil
+//@ ensures vs_called("location")
+//@ ensures vs_callResult[error]("location", 2) != nil ==> result != nil && !vs_called("WriteFile") && !vs_called("MkdirAll")
+//@ ensures vs_callResult[error]("location", 2) == nil && t.SkipExists && fileExists(vs_callResult[string]("location", 0), vs_callResult[string]("location", 1)) ==> result == nil && !vs_called("WriteFile") && !vs_called("MkdirAll") && !vs_called("render")
+//@ ensures vs_called("WriteFile") ==> vs_callArg[string]("WriteFile", 0) == filepath.Join(vs_callResult[string]("location", 0), vs_callResult[string]("location", 1))
+//@ ensures result == nil && !(t.SkipExists && fileExists(vs_callResult[string]("location", 0), vs_callResult[string]("location", 1))) ==> vs_called("WriteFile") && vs_called("render")
+
+//@ func DefaultSectionOpts
+//@ props C11
+//@ requires gen != nil
+//@ modifies &gen.Sections
+//@ ensures old(len(gen.Sections.Application)) == 0 ==> vs_all(func(i int) bool { return 0 <= i && i < len(gen.Sections.Application) ==> gen.Sections.Application[i].SkipExists == (gen.Sections.Application[i].Name == "configure" && !gen.RegenerateConfigureAPI) })
+//@ ensures old(len(gen.Sections.Application)) == 0 && !gen.IsClient && gen.ImplementationPackage == "" ==> len(gen.Sections.Application) == 6 && gen.Sections.Application[5].Name == "configure" && gen.Sections.Application[5].SkipExists == !gen.RegenerateConfigureAPI
+//@ ensures old(len(gen.Sections.Models)) == 0 ==> vs_all(func(i int) bool { return 0 <= i && i < len(gen.Sections.Models) ==> !gen.Sections.Models[i].SkipExists })
+//@ ensures old(len(gen.Sections.Operations)) == 0 ==> vs_all(func(i int) bool { return 0 <= i && i < len(gen.Sections.Operations) ==> !gen.Sections.Operations[i].SkipExists })
+//@ ensures old(len(gen.Sections.OperationGroups)) == 0 ==> vs_all(func(i int) bool { return 0 <= i && i < len(gen.Sections.OperationGroups) ==> !gen.Sections.OperationGroups[i].SkipExists })
+//@ ensures old(len(gen.Sections.Application)) != 0 ==> vs_same(gen.Sections.Application, old(gen.Sections.Application))
